@@ -39,9 +39,49 @@ pub fn default_opts() -> Value {
            "enums_without_data_as_strings": false, "from_type_budget": 100, "overwrites": []})
 }
 
-/// overwrite fields travel as `[path, {"name":…, "dt": "Int64"|…, "nullable": b}]`, a small fixed vocabulary
+/// overwrite fields travel as `[path, {"name":…, "dt": "Int64"|…, "nullable": b}]`, a small fixed vocabulary; `dt` may
+/// also be a data type in the wire form of schema_dump.rs (`{"t": "Struct", "fields": […]}`, `{"t": "List" | "LargeList",
+/// "child": …}`, leaves) and an optional `"meta": [[k, v]…]` carries the metadata of the overwrite field (tracety)
 pub fn overwrite_field_json(f: &Value) -> Value {
-    json!({"name": f["name"], "data_type": f["dt"], "nullable": f["nullable"]})
+    if f["dt"].is_string() && f.get("meta").is_none() {
+        return json!({"name": f["name"], "data_type": f["dt"], "nullable": f["nullable"]});
+    }
+    let dt = if f["dt"].is_string() { json!({"t": f["dt"]}) } else { f["dt"].clone() };
+    sa_field_json(&json!({"name": f["name"], "nullable": f["nullable"], "meta": f.get("meta").cloned().unwrap_or(json!([])), "dt": dt}))
+}
+
+/// a field in the wire form of schema_dump.rs as the JSON-like value serde_arrow reads a field from
+/// (`name`, `data_type`, `nullable`, `metadata`, `children`); leaves, Struct, List and LargeList only
+pub fn sa_field_json(f: &Value) -> Value {
+    let dt = &f["dt"];
+    let t = dt["t"].as_str().expect("data type tag");
+    let children: Vec<Value> = match t {
+        "Struct" => dt["fields"].as_array().expect("fields").iter().map(sa_field_json).collect(),
+        "List" | "LargeList" => vec![sa_field_json(&dt["child"])],
+        _ => {
+            assert!(dt.as_object().map(|o| o.len()) == Some(1), "harness: overwrite data type {t} has parameters");
+            vec![]
+        }
+    };
+    let mut out = json!({"name": f["name"], "data_type": t, "nullable": f["nullable"]});
+    if !children.is_empty() || t == "Struct" {
+        out["children"] = Value::Array(children);
+    }
+    let meta = crate::schema_dump::meta_from_json(&f["meta"]);
+    if !meta.is_empty() {
+        out["metadata"] = json!(meta);
+    }
+    out
+}
+
+/// the same overwrite field as a marrow `Field` value
+pub fn overwrite_field_marrow(f: &Value) -> Field {
+    Field {
+        name: f["name"].as_str().unwrap().to_string(),
+        data_type: if f["dt"].is_string() { crate::schema_dump::dt_from_json(&json!({"t": f["dt"]})) } else { crate::schema_dump::dt_from_json(&f["dt"]) },
+        nullable: f["nullable"].as_bool().unwrap(),
+        metadata: f.get("meta").map(crate::schema_dump::meta_from_json).unwrap_or_default(),
+    }
 }
 
 pub fn build_opts(o: &Value) -> Result<TracingOptions, serde_arrow::Error> {
@@ -103,13 +143,7 @@ pub fn build_opts_perm(o: &Value, seed: u64) -> Result<TracingOptions, serde_arr
         } else if let Some(ows) = o["overwrites"].as_array() {
             for ow in ows {
                 // the path as an owned String, the field as a marrow `Field` value (any `Serialize` is accepted)
-                let f = &ow[1];
-                let field = Field {
-                    name: f["name"].as_str().unwrap().to_string(),
-                    data_type: crate::schema_dump::dt_from_json(&json!({"t": f["dt"]})),
-                    nullable: f["nullable"].as_bool().unwrap(),
-                    metadata: Default::default(),
-                };
+                let field = overwrite_field_marrow(&ow[1]);
                 t = t.overwrite(ow[0].as_str().unwrap().to_string(), field)?;
             }
         }
